@@ -152,6 +152,32 @@ func (e *specEnv) lookup(name string) Val {
 			}
 		}
 	}
+	// a function executed in place of its call sees, for specification purposes, the locals of the
+	// functions it was called from (used when loop annotations of the caller are offered to a loop
+	// that a change moved into a helper)
+	if e.cellsFirst && !e.inOld && e.f.inlined {
+		for fr := e.f.caller; fr != nil; fr = fr.caller {
+			var best *Cell
+			for al, c := range fr.cellOf {
+				if al.Comment == name {
+					if _, live := st.cells[c]; live && (best == nil || c.id > best.id) {
+						best = c
+					}
+				}
+			}
+			if best != nil {
+				return st.cells[best]
+			}
+			for i, p := range fr.fn.Params {
+				if p.Name() == name && i < len(fr.params) {
+					return fr.params[i]
+				}
+			}
+			if !fr.inlined {
+				break
+			}
+		}
+	}
 	for i, fv := range e.f.fn.FreeVars {
 		if fv.Name() == name {
 			if cp, ok := e.f.free[i].(VCellPtr); ok {
